@@ -253,6 +253,22 @@ def r5_conservation(r, facts):
             r.bad('wake_blocked_futures/vec-dropped', 'a Vec<Waker> is dropped (its wakers are never woken)', f.where(f.term_loc(b)))
         if t['k'] == 'call' and (t.get('callee') or '') in ('std::vec::Vec::<T, A>::clear', 'std::vec::Vec::<T, A>::truncate', 'std::mem::forget'):
             r.bad('wake_blocked_futures/vec-cleared', 'wakers are discarded via %s' % t.get('callee'), f.where(f.term_loc(b)))
+    # a Drain removes its whole range when it is dropped, consumed or not: an adaptor that stops early (`take`, `take_while`,
+    # `step_by`, `skip`, `filter`, `nth`, ..) between a drain and its consumer throws the remaining wakers away
+    ebp = ExprBuilder(f, multi='phi')
+    for loc, t in f.calls():
+        if f.blocks[loc[0]]['cleanup'] or not t['args']:
+            continue
+        n_ = t.get('callee') or ''
+        if n_ in ('std::iter::Iterator::next', 'std::iter::Extend::extend', 'std::iter::Iterator::for_each'):
+            src = ebp.operand(t['args'][-1] if n_ == 'std::iter::Extend::extend' else t['args'][0])
+            drains = [x for x in subexprs(src) if x[0] == 'call' and x[1] == 'std::vec::Vec::<T, A>::drain']
+            if drains:
+                between = [x[1] for x in subexprs(src) if x[0] == 'call' and x[1].startswith('std::iter::Iterator::') and x[1] != 'std::iter::Iterator::next'
+                           and any(y is drains[0] or y == drains[0] for y in subexprs(x))]
+                lossy = [b_ for b_ in between if b_.rsplit('::', 1)[-1] in ('take', 'take_while', 'step_by', 'skip', 'skip_while', 'filter', 'filter_map', 'nth', 'map_while', 'zip')]
+                r.inst('drain consumed by %s%s' % (n_.rsplit('::', 1)[-1], ' through %s' % between if between else ''), f.where(loc))
+                r.require(not lossy, 'wake_blocked_futures/drain-cut-short', 'wakers are drained through %s: the Drain removes its whole range from the list but only part of it is woken or re-queued, the rest is dropped un-woken' % lossy, f.where(loc))
     # after the take: re-queue (swap or extend into the field) and wake-all (into_iter loop) are unavoidable
     after = [Loc(tt['target'], 0)]
     swaps = [loc for loc, t in f.calls() if (t.get('callee') or '') in ('std::mem::swap',) and 'Vec<std::task::Waker>' in (t.get('callee_full') or '')]
